@@ -40,12 +40,15 @@ def run(ch, tier):
             if r.exc is None or type(r.exc).__name__ != sel.err:
                 raise Abandon('C04: predicted %s, got %s' % (sel.err, r.exc_name()))
             continue
-        if r.exc is not None:
-            raise Abandon('C04/other: unexpected %s' % r.exc_name())
+        if r.exc is not None and r.exc_name() not in ('NonDeterminismError', 'ConflictingTransitionsError'):
+            raise Abandon('other: unexpected %s' % r.exc_name())
         ctx = dict(chart=sp.describe(), configuration=sp.canon(r.pre), pending=r.head and (r.head[3], r.head[2]),
                    truth={'t%d' % k: v for k, v in sorted(r.truth.items())}, step=r.k)
-        got = sorted(r.fired_ids())
         exp = sorted(t.i for t in sel.fired)
+        if r.exc is not None:
+            return res.fail('selection-error', 'the documented semantics prescribes firing %s (no two of them in one region), '
+                            'execute_once raised %s: %s' % (['t%d' % i for i in exp], r.exc_name(), str(r.exc).split('\n')[0][:90]), **ctx)
+        got = sorted(r.fired_ids())
         if got != exp:
             return res.fail('selection', 'fired %s, the documented semantics prescribes %s' % (
                 ['t%d' % i for i in got], ['t%d' % i for i in exp]), **ctx)
